@@ -190,6 +190,10 @@ func (hr *histRun) setup() error {
 	}
 	hr.certPath = filepath.Join(dir, "tls.crt")
 	hr.keyPath = filepath.Join(dir, "tls.key")
+	if hr.h.OddPaths {
+		hr.certPath = dir + "/./tls.crt"
+		hr.keyPath = dir + "//tls.key"
+	}
 	c, k := certC(hr.h.Init), keyC(hr.pool.keyOf[hr.h.Init])
 	hr.cur = diskState{Cert: c, Key: k}
 	if hr.h.Layout == "k8s" {
@@ -538,6 +542,11 @@ func (hr *histRun) awaitConvergence(P int64, sEnd int64, tEnd time.Time) (convOu
 			}
 			stable++
 			if stable >= stableAfter {
+				// a slow-initial history: whatever was still reading the (slow) initial pair when the
+				// steps began must have finished before stability is declared
+				if hold := 3 * hr.res.slowLoad; hr.h.SlowInitial && time.Since(first.end) < max(hold, time.Second) {
+					continue
+				}
 				return convOK, first.end.Sub(tEnd), nil, ""
 			}
 		}
@@ -624,7 +633,11 @@ func runHistory(h *history, pool *pairPool, isolated bool) *result {
 	if flagWired {
 		// the watcher and the TLS parameters come out of the command-line wiring (initCertWatcher,
 		// defaultTLSConfig), which starts the watcher itself; one composition per process (see main)
+		t0 := time.Now()
 		app, err := fingerproxy.VerifNewApp(ctx, []string{"-cert-filename=" + hr.certPath, "-certkey-filename=" + hr.keyPath}, nil)
+		if hr.h.SlowInitial {
+			hr.res.slowLoad = time.Since(t0)
+		}
 		if err != nil || app.CertWatcher == nil {
 			cancel()
 			return harness("VerifNewApp with a valid initial pair: %v", err)
